@@ -47,8 +47,8 @@ impl Campaign for C08c {
     }
     fn runs(&self, tier: Tier) -> u64 {
         match tier {
-            Tier::Quick => 8_000,
-            Tier::Thorough => 300_000,
+            Tier::Quick => 80_000,
+            Tier::Thorough => 2_000_000,
         }
     }
     fn generate(&self, rng: &mut Rng, index: u64, tier: Tier) -> Scenario {
@@ -154,8 +154,8 @@ impl Campaign for C20c {
     }
     fn runs(&self, tier: Tier) -> u64 {
         match tier {
-            Tier::Quick => 8_000,
-            Tier::Thorough => 300_000,
+            Tier::Quick => 50_000,
+            Tier::Thorough => 1_500_000,
         }
     }
     fn uncovered(&self) -> Vec<String> {
